@@ -132,6 +132,9 @@ class AttrConstantPattern(AttrPattern):
             ir.AttributeType.STRINGS,
         }:
             # Since the type of attr.value is Sequence, we need to convert to the same type for comparison.
+            # A scalar (or string) pattern never equals a list-valued attribute.
+            if isinstance(self._value, str) or not isinstance(self._value, Sequence):
+                return False
             return tuple(attr.value) == tuple(self._value)
         return attr.value == self._value
 
